@@ -293,11 +293,13 @@ def inject(kind, data, rng):
     elif kind == "max_nodes_differ":
         if len(groups) < 2:
             return False
-        groups[-1]["submitter_params"]["max_nodes"] = (groups[0]["submitter_params"].get("max_nodes") or 0) + 3
+        base = groups[0]["submitter_params"].get("max_nodes")
+        k = rng.randrange(len(groups))  # any one group may be the odd one out, the first included; unset is a value too
+        groups[k]["submitter_params"]["max_nodes"] = rng.choice([(base or 0) + 3, None]) if base is not None else (base or 0) + 3
     elif kind == "poll_differs":
         if len(groups) < 2:
             return False
-        groups[-1]["submitter_params"]["poll_interval"] = groups[0]["submitter_params"]["poll_interval"] + 7
+        groups[rng.randrange(len(groups))]["submitter_params"]["poll_interval"] = groups[0]["submitter_params"]["poll_interval"] + 7
     elif kind == "hpc_type_differs":
         if len(groups) < 2:
             return False
